@@ -309,12 +309,19 @@ def execute_history(cfg, d, valid, scratch, stats=None):
             rec = {"opi": opi, "label": "r%d" % nrun, "prefix": prefix,
                    "kinds": [sl.kind for sl in slots], "texts": [sl.text for sl in slots]}
             nrun += 1
+            # the same files are named differently from run to run (the child's working directory is the history directory)
+            srng = Rng(derive(cfg.get("entropy", 0), "spelling", nrun))
+
+            def spell(path):
+                rel = os.path.relpath(path, d)
+                return {"abs": path, "rel": rel, "dotrel": "./" + rel, "updown": "outdir/../" + rel}[srng.choice(["abs", "abs", "rel", "dotrel", "updown"])]
+
             if cfg["mode"] == "file":
-                args = ["--file", os.path.join(d, slots[0].rel)]
+                args = ["--file", spell(os.path.join(d, slots[0].rel))]
                 if cfg["explicit_dest"]:
-                    args += ["--dest", dests[0]]
+                    args += ["--dest", spell(dests[0])]
             else:
-                args = ["--dir", os.path.join(d, "src")]
+                args = ["--dir", spell(os.path.join(d, "src"))]
             args += ["--prefix", prefix] + settings
             if fmt:
                 args.append("--format")
